@@ -86,8 +86,10 @@ package stream
 //@   ensures#stored err != nil ==> r.err == err && n == 0 && len(r.unread) == 0                                             [C02 C13]
 //@   ensures#keeperr old(r.err) != nil ==> r.err == old(r.err)                                                               [C02 C13]
 //@   ensures#chunkerr lasterr("readChunk",1) != nil ==> err == lasterr("readChunk",1)                                        [C13]
-//@   ensures#probed (r.err == io.EOF && old(r.err) == nil) ==> calls("Read",1) == old(calls("Read",1)) + 1                         [C02 C13]
-//@   ensures#probeerr (lasterr("Read",1) != nil && lasterr("Read",1) != io.EOF && lastret("Read",1,0) == 0) ==> wraps(r.err, lasterr("Read",1))   [C13 C14]
+//@   ensures#probed (r.err == io.EOF && old(r.err) == nil) ==> calls("io.ReadFull",1) == old(calls("io.ReadFull",1)) + 1             [C02 C13]
+//@   ensures#probeerr (lasterr("io.ReadFull",1) != nil && lasterr("io.ReadFull",1) != io.EOF) ==> wraps(r.err, lasterr("io.ReadFull",1))   [C13 C14]
+//@   call io.ReadFull#1 requires arg0 == r.src && len(arg1) == 1                                                            [C02 C12 C13]
+//@   ensures#cleaneof (old(r.err) == nil && len(old(r.unread)) == 0 && len(p) > 0 && err == nil && r.nonce[11] == 1 && old(r.src.$reliable) && len(old(r.src.$rem)) <= ECS) ==> r.err == io.EOF   [C01 C12]
 //@   ensures#buffered len(old(r.unread)) > 0 ==> err == nil && n == min(len(p), len(old(r.unread))) && r.src.$rem == old(r.src.$rem) && r.err == old(r.err)   [C01 C02 C12]
 //@   ensures#bufdata len(old(r.unread)) > 0 ==> sub(bytes(p), 0, n) == sub(old(bytes(r.unread)), 0, n)                     [C01 C02 C12]
 //@   ensures#bufrest len(old(r.unread)) > 0 ==> bytes(r.unread) == sub(old(bytes(r.unread)), n, len(old(r.unread)))         [C01 C02 C12]
